@@ -32,6 +32,7 @@ TNext == /\ l <= Len(Traces[tid].ev)
               \/ e.t = "al" /\ AskAL(e.term, e.v)
               \/ e.t = "fmmu" /\ SetFm(e.term, e.n)
               \/ e.t = "frame" /\ Frame
+              \/ e.t = "silent" /\ Silent(e.term)
               \/ e.t = "cancel" /\ Cancel
               \/ e.t = "done" /\ Done(e.outcome)
               \/ /\ e.t = "end"
